@@ -1138,3 +1138,167 @@ fn rov_use_replay() {
     writeln!(out, "{{\"summary\":{{\"states\":{},\"evaluations\":{}}}}}", nstates, nevals).unwrap();
     out.flush().unwrap();
 }
+
+// ------------------------------------------------------------------------------------------------
+// Atomicity of the manager's lock-free / read-modify-write critical sections under REAL concurrency, without scheduling
+// hooks (the specifications treat each of these as one atomic action; a hook can only sit where the code has a step
+// boundary today, so a change that SPLITS an action has no hook inside the new window):
+//   C18  the subscriber list: subscribe() of new monitors concurrently with unsubscribe() of others and with dead
+//        (receiver dropped, never unsubscribed) monitors in the list; afterwards every live monitor must see every change
+//        and no unsubscribed one may;
+//   C13  the VRP table: one cache installing large snapshots (rpki_reset) while another cache's session announces /
+//        withdraws single VRPs and a third one's goes away; the operations of different caches commute, so the final
+//        content is known whatever the interleaving.
+// Input (VERIF_IN ends ".atom.in"): "subs <rounds> <n>" / "vrps <rounds> <snapshot size> <singles>".
+// Output: one JSON line per round.
+// ------------------------------------------------------------------------------------------------
+#[test]
+fn atomicity_stress() {
+    let Ok(inp) = std::env::var("VERIF_IN") else {
+        return;
+    };
+    if !inp.ends_with(".atom.in") {
+        return;
+    }
+    let outp = std::env::var("VERIF_OUT").expect("VERIF_OUT");
+    let text = std::fs::read_to_string(&inp).expect("read VERIF_IN");
+    let mut out = std::io::BufWriter::new(std::fs::File::create(&outp).expect("create VERIF_OUT"));
+    let src = Arc::new(table::Source::new(
+        IpAddr::V4(Ipv4Addr::new(10, 0, 0, 1)),
+        IpAddr::V4(Ipv4Addr::new(10, 0, 0, 9)),
+        65001,
+        65000,
+        Ipv4Addr::new(1, 1, 1, 1),
+        table::PeerRole::Ebgp,
+    ));
+    let saw = |rx: &mut mpsc::UnboundedReceiver<BgpEvent>| -> (usize, usize) {
+        // (pre-policy reach events, post-policy reach events) for the probe prefix
+        let (mut pre, mut post) = (0, 0);
+        while let Ok(ev) = rx.try_recv() {
+            match ev {
+                BgpEvent::AdjRibIn(c) if c.attrs.is_some() => pre += c.nlris.len(),
+                BgpEvent::AdjRibInPost(c) if c.attrs.is_some() => post += c.nlris.len(),
+                _ => {}
+            }
+        }
+        (pre, post)
+    };
+    for line in text.lines() {
+        let t: Vec<&str> = line.split_whitespace().collect();
+        if t.is_empty() {
+            continue;
+        }
+        let rounds: usize = t[1].parse().unwrap();
+        if t[0] == "subs" {
+            let n: usize = t[2].parse().unwrap();
+            for r in 0..rounds {
+                let tm: Arc<TableManager> = Arc::new(TableManager::new(2));
+                // a dead monitor first in the list (its receiver is gone, nobody unsubscribed it), then the old ones
+                let dead = tm.subscribe(false);
+                drop(dead.rx);
+                let mut old: Vec<Subscription> = (0..n).map(|_| tm.subscribe(false)).collect();
+                let old_ids: Vec<SubscriptionId> = old.iter().map(|s| s.id).collect();
+                let (tm_a, tm_b, tm_c) = (tm.clone(), tm.clone(), tm.clone());
+                let half = n / 2;
+                let ids_a: Vec<SubscriptionId> = old_ids[..half].to_vec();
+                let ids_b: Vec<SubscriptionId> = old_ids[half..].to_vec();
+                let ha = std::thread::spawn(move || {
+                    for id in ids_a {
+                        tm_a.unsubscribe(id);
+                    }
+                });
+                let hb = std::thread::spawn(move || {
+                    for id in ids_b {
+                        tm_b.unsubscribe(id);
+                    }
+                });
+                let hc = std::thread::spawn(move || (0..n).map(|i| tm_c.subscribe(i % 2 == 0)).collect::<Vec<Subscription>>());
+                let mut new2: Vec<Subscription> = (0..n).map(|_| tm.subscribe(false)).collect();
+                ha.join().unwrap();
+                hb.join().unwrap();
+                let mut new1 = hc.join().unwrap();
+                // drain what the subscriptions themselves produced, then one change
+                for s in new1.iter_mut().chain(new2.iter_mut()).chain(old.iter_mut()) {
+                    let _ = saw(&mut s.rx);
+                }
+                let net = packet::Nlri::V4(packet::bgp::Ipv4Net { addr: Ipv4Addr::new(10, 7, r as u8, 0), mask: 24 });
+                let _ = tm.insert_route(src.clone(), Family::IPV4, packet::PathNlri::new(net), Some(bgp::Nexthop::V4(Ipv4Addr::new(192, 0, 2, 1))), sub_attrs(1), None, 0);
+                let mut new_pre = 0;
+                let mut new_post = 0;
+                for s in new1.iter_mut().chain(new2.iter_mut()) {
+                    let (a, b) = saw(&mut s.rx);
+                    new_pre += (a == 1) as usize;
+                    new_post += (b == 1) as usize;
+                }
+                let mut old_saw = 0;
+                for s in old.iter_mut() {
+                    let (a, b) = saw(&mut s.rx);
+                    old_saw += a + b;
+                }
+                let listed = tm.subscribers.load().len();
+                writeln!(out, "{{\"kind\":\"subs\",\"round\":{r},\"new\":{},\"new_pre\":{new_pre},\"new_post\":{new_post},\"old_saw\":{old_saw},\"listed\":{listed}}}", 2 * n).unwrap();
+            }
+        } else if t[0] == "vrps" {
+            let size: u32 = t[2].parse().unwrap();
+            let singles: u32 = t[3].parse().unwrap();
+            let ca = Arc::new(IpAddr::V4(Ipv4Addr::new(192, 0, 2, 101)));
+            let cb = Arc::new(IpAddr::V4(Ipv4Addr::new(192, 0, 2, 102)));
+            let cc = Arc::new(IpAddr::V4(Ipv4Addr::new(192, 0, 2, 103)));
+            let vrp = |base: u8, i: u32, cache: &Arc<IpAddr>| (packet::IpNet::new(IpAddr::V4(Ipv4Addr::new(base, (i >> 16) as u8, (i >> 8) as u8, i as u8)), 32), Arc::new(table::Roa::new(32, 65000 + (i % 7), cache.clone())));
+            for r in 0..rounds {
+                let tm: Arc<TableManager> = Arc::new(TableManager::new(1));
+                // cache C holds some VRPs and goes away during the round; cache B starts with the first third of its singles
+                tm.rpki_insert((0..100).map(|i| vrp(30, i, &cc)).collect());
+                tm.rpki_insert((0..singles / 3).map(|i| vrp(20, i, &cb)).collect());
+                let (tm_a, tm_b, tm_c) = (tm.clone(), tm.clone(), tm.clone());
+                let (ca2, cb2, cc2) = (ca.clone(), cb.clone(), cc.clone());
+                let ha = std::thread::spawn(move || {
+                    // three snapshots, the last one is what must stay
+                    for k in 0..3u32 {
+                        let snap = (0..size).map(|i| vrp(10 + k as u8, i, &ca2)).collect();
+                        tm_a.rpki_reset(ca2.clone(), snap);
+                    }
+                });
+                let hb = std::thread::spawn(move || {
+                    for i in singles / 3..singles {
+                        tm_b.rpki_insert(vec![vrp(20, i, &cb2)]);
+                        if i % 3 == 0 {
+                            tm_b.rpki_withdraw(vec![vrp(20, i - singles / 3, &cb2)]);
+                        }
+                    }
+                });
+                let hc = std::thread::spawn(move || {
+                    std::thread::yield_now();
+                    tm_c.rpki_drop_all(cc2);
+                });
+                ha.join().unwrap();
+                hb.join().unwrap();
+                hc.join().unwrap();
+                let (mut a_last, mut a_other, mut b, mut c) = (0u32, 0u32, Vec::new(), 0u32);
+                for (net, roa) in tm.collect_roa(Family::IPV4) {
+                    let o = match net {
+                        packet::IpNet::V4(x) => x.addr.octets(),
+                        _ => [0; 4],
+                    };
+                    if *roa.source == *ca {
+                        if o[0] == 12 {
+                            a_last += 1;
+                        } else {
+                            a_other += 1;
+                        }
+                    } else if *roa.source == *cb {
+                        b.push(((o[1] as u32) << 16) | ((o[2] as u32) << 8) | o[3] as u32);
+                    } else {
+                        c += 1;
+                    }
+                }
+                b.sort();
+                let exp_b: Vec<u32> = (0..singles).filter(|i| !(*i < singles - singles / 3 && (i + singles / 3) % 3 == 0 && i + singles / 3 < singles)).collect();
+                let b_ok = b == exp_b;
+                writeln!(out, "{{\"kind\":\"vrps\",\"round\":{r},\"a_last\":{a_last},\"a_expected\":{size},\"a_other\":{a_other},\"b\":{},\"b_expected\":{},\"b_ok\":{b_ok},\"c\":{c}}}", b.len(), exp_b.len()).unwrap();
+            }
+        }
+    }
+    out.flush().unwrap();
+}
+
